@@ -1096,10 +1096,15 @@ class SQLObject(with_metaclass(declarative.DeclarativeMeta, object)):
             self.sqlmeta.send(events.RowUpdateSignal, self, d)
         if len(d) != 1 or name not in d:
             # Already called RowUpdateSignal, don't call it again
-            # inside .set()
+            # inside .set(); set() stores the whole (rewritten) dict,
+            # sends RowUpdatedSignal and runs the callbacks: nothing is
+            # left to do here
             self.sqlmeta.row_update_sig_suppress = True
-            self.set(**d)
-            del self.sqlmeta.row_update_sig_suppress
+            try:
+                self.set(**d)
+            finally:
+                del self.sqlmeta.row_update_sig_suppress
+            return
         value = d[name]
         if from_python:
             dbValue = from_python(value, self._SO_validatorState)
